@@ -415,9 +415,66 @@ def dup_case(ctx, k):
         shutil.rmtree(d, ignore_errors=True)
 
 
+def stdout_mate_case(ctx, k):
+    """The second file of an output pair on standard output ('-p -', '--too-short-paired-output -' ...): standard output
+    is then a final output file like any other and holds exactly the records the report counts for that destination."""
+    from .. import gen_cli as G
+
+    rng = ctx.rng("c04stdout", k)
+    d = os.path.join(ctx.scratch, f"so{k}")
+    os.makedirs(d, exist_ok=True)
+    try:
+        ad = G.gen_adapter(rng, 0, kinds=["a"])
+        recs1, recs2 = G.gen_reads(rng, rng.randint(20, 60), True, [ad], [ad], maxlen=30, qual_profile="high")
+        inputs = climon.write_inputs(d, recs1, recs2)
+        shape = rng.choice(["-p", "-p", "too-short", "too-long", "untrimmed"])
+        cores = ["-j", "2"] if rng.random() < 0.3 else []
+        if shape == "-p":
+            argv = ad["argv"] + cores + ["-o", "o1.fq", "-p", "-"]
+            partner, key = "o1.fq", ("read_counts", "output")
+        elif shape == "too-short":
+            argv = ad["argv"] + cores + ["-m", "14", "--too-short-output", "s1.fq", "--too-short-paired-output", "-", "-o", "o1.fq", "-p", "o2.fq"]
+            partner, key = "s1.fq", ("read_counts", "filtered", "too_short")
+        elif shape == "too-long":
+            argv = ad["argv"] + cores + ["-M", "16", "--too-long-output", "s1.fq", "--too-long-paired-output", "-", "-o", "o1.fq", "-p", "o2.fq"]
+            partner, key = "s1.fq", ("read_counts", "filtered", "too_long")
+        else:
+            argv = ad["argv"] + cores + ["--untrimmed-output", "s1.fq", "--untrimmed-paired-output", "-", "-o", "o1.fq", "-p", "o2.fq"]
+            partner, key = "s1.fq", ("read_counts", "filtered", "discard_untrimmed")
+        argv += ["--json", "rep.json"] + inputs
+        run = climon.run(d, argv, tag="so", trace=False)
+        ctx.count("second_mate_on_standard_output_runs")
+        ctx.case(("stdout-mate", str(argv)))
+        case = climon.case_record(argv, d, inputs)
+        case.update(so_k=k)
+        if run.rc != 0:
+            ctx.count("runs_failed")
+            return
+        want = run.json_report()
+        for part in key:
+            want = want[part]
+        fo = run.records(partner)
+        n_partner = len(fo[1]) if fo and fo[0] != "error" else None
+        try:
+            got = fastx.parse_fastq(run.out, strict=True)
+        except fastx.ParseError as e:
+            ctx.violation("stdout-not-records", f"standard output is the second file of the pair ({shape}) but does not parse as FASTQ: {e}; "
+                          f"it starts with {run.out[:120]!r}; argv={argv}", case, facts=dict(shape=shape))
+            return
+        ids = [fastx.rid(r[0]) for r in got]
+        pids = [fastx.rid(r[0]) for r in fo[1]] if n_partner is not None else None
+        if len(got) != want or ids != pids:
+            ctx.violation("stdout-count", f"standard output is the second file of the pair ({shape}): it holds {len(got)} records, its partner file {n_partner}, "
+                          f"the report counts {want}; argv={argv}", case, facts=dict(shape=shape))
+    finally:
+        shutil.rmtree(d, ignore_errors=True)
+
+
 def run_shard(ctx):
     for k in range(ctx.scale(6, 60)):
         dup_case(ctx, ctx.shard * 100000 + k)
+    for k in range(ctx.scale(3, 40)):
+        stdout_mate_case(ctx, ctx.shard * 100000 + k)
     for k in range(ctx.scale(150, 4000)):
         if ctx.out_of_time():
             ctx.count("stopped_on_time_budget")
@@ -437,6 +494,10 @@ def replay(ctx, case):
     if "dup_k" in case:
         ctx.shard = case["dup_k"] // 100000
         dup_case(ctx, case["dup_k"])
+        return
+    if "so_k" in case:
+        ctx.shard = case["so_k"] // 100000
+        stdout_mate_case(ctx, case["so_k"])
         return
     ctx.shard = case["k"] // 100000
     one_case(ctx, case["k"])
